@@ -40,6 +40,7 @@ type Bounds struct {
 	MaxCallDepth  int
 	Preempt       int // preemption bound for the scheduler (-1: no preemption except at blocking)
 	SolverTimeout int // ms per query
+	FixedSchedule bool // resolve scheduling choices deterministically (first runnable goroutine)
 }
 
 func DefaultBounds() Bounds {
@@ -111,6 +112,8 @@ type pathCtx struct {
 	domSkips int
 	pend     []pendingAssert
 	tlsConns map[*value]*tlsState
+	fixedSched bool
+	tlsDialTarget iface
 	tlsOK    bool
 	tlsProto value
 	codecs   map[*value]*codecState
@@ -824,6 +827,15 @@ func stackOf(fr *frame) []string {
 		s = append(s, f.fn.String()+pos)
 	}
 	return s
+}
+
+// TraceOf exports a violation's decision trace for engine replay.
+func (v Violation) TraceOf() [][3]uint64 {
+	r := make([][3]uint64, len(v.Trace))
+	for i, d := range v.Trace {
+		r[i] = [3]uint64{uint64(d.D), d.V, uint64(d.K)}
+	}
+	return r
 }
 
 func (ex *Explorer) noteInconclusive(msg string) {
